@@ -142,7 +142,7 @@ class Acc:
             return None
         except Exception as e:
             msg = 'oracle raised %s: %s' % (type(e).__name__, str(e)[:200])
-        self.distinct.add((kind, src, 'viol' if msg else 'holds'))
+        self.distinct.add((kind, src, self.sig(kind, src, args), 'viol' if msg else 'holds'))
         if msg:
             sig = self.sig(kind, src, args)
             if sig not in self._seen_viol:
